@@ -10,6 +10,19 @@ From OV Require Import Model.LexA64.
 Import ListNotations.
 Open Scope string_scope.
 
+(* ------------------------------------------------------------------ which repairs the tree under test contains
+   The four defects of parser_AArch64.py found by this property (patches/C10-fix-*.diff) change the grammar;
+   the model describes the parser for every combination of repairs.  The check decides from the
+   implementation's behaviour on the witness lines which configuration it is looking at and holds the model of
+   exactly that configuration against it.
+     fx_word  shift/extend operators are whole words          (C10-fix-shift-op-whole-word)
+     fx_cond  a condition code is a whole word, tried first    (C10-fix-condition-code-whole-word)
+     fx_sxtx  sxtx is a shift operator that scales an index    (C10-fix-sxtx-extend)
+     fx_dir   a directive parameter stops in front of `//`     (C10-fix-directive-parameter-stops-at-comment) *)
+Record fixes := mkfx { fx_word : bool; fx_cond : bool; fx_sxtx : bool; fx_dir : bool }.
+Definition fx_none : fixes := mkfx false false false false.   (* the parser as found *)
+Definition fx_all : fixes := mkfx true true true true.        (* all four repairs applied *)
+
 (* ------------------------------------------------------------------ results *)
 Inductive idx := IdxS (s : string) | IdxI (z : Z).       (* 'index' kept as str (vector) or int (list) *)
 Record reg := mkreg { r_prefix : string; r_name : string; r_shape : option string; r_lanes : option string;
@@ -80,8 +93,10 @@ Inductive wcls :=
 | CIdent
 | CBad.
 
-Definition shift_ops : list string := ["lsl";"lsr";"asr";"ror";"sxtw";"uxtw";"uxtb"].
-Definition valid_shift_ops : list string := ["lsl";"uxtw";"uxtb";"sxtw"].
+Definition shift_ops (fx : fixes) : list string :=
+  (["lsl";"lsr";"asr";"ror";"sxtw";"uxtw";"uxtb"] ++ (if fx_sxtx fx then ["sxtx"] else []))%list.
+Definition valid_shift_ops (fx : fixes) : list string :=
+  (["lsl";"uxtw";"uxtb";"sxtw"] ++ (if fx_sxtx fx then ["sxtx"] else []))%list.
 Definition is_lanech (c : ascii) : bool := existsb (ceq c) ["1";"2";"4";"6";"8"]%char.
 Definition s1 (c : ascii) : string := String c "".
 Definition plain (p n : string) : reg := mkreg p n None None None None.
@@ -180,11 +195,13 @@ Definition classify (w : string) : wcls :=
                  end
        end.
 
-(* does a (lower-cased) word start with a shift operator?  Some (op, tail) *)
-Definition shift_split (w : string) : option (string * string) :=
+(* does a (lower-cased) word start with a shift operator?  Some (op, tail).
+   With the whole-word repair the operator has to end at a word boundary: the tail is empty. *)
+Definition shift_split (fx : fixes) (w : string) : option (string * string) :=
   let lw := lower w in
-  match filter (fun op => prefix_of op lw) shift_ops with
-  | op :: _ => Some (op, drop (String.length op) w)
+  match filter (fun op => prefix_of op lw) (shift_ops fx) with
+  | op :: _ => let tail := drop (String.length op) w in
+               if andb (fx_word fx) (nonempty tail) then None else Some (op, tail)
   | [] => None
   end.
 
@@ -214,12 +231,13 @@ Definition p_imm (ts : list tok) : immres :=
   end.
 
 (* what follows a register inside the `register` group:  , shift_op immediate?   (result: swallowed or not) *)
-Inductive shres := ShUnm | ShNone | ShGot (op : string) (amount : option (Z * string)) (rest : list tok).
-Definition p_shift (ts : list tok) : shres :=
+Inductive shres := ShUnm | ShNone | ShGot (op : string) (amount : option (Z * string)) (rest : list tok)
+                 | ShGotId (op : string) (rest : list tok).     (* the amount is an identifier *)
+Definition p_shift (fx : fixes) (ts : list tok) : shres :=
   match ts with
   | TP "," :: TW w :: rest =>
     if String.eqb (lower w) "mul" then ShUnm
-    else match shift_split w with
+    else match shift_split fx w with
          | None => ShNone
          | Some (op, EmptyString) =>
            match p_imm rest with
@@ -228,8 +246,10 @@ Definition p_shift (ts : list tok) : shres :=
            | _ => ShUnm
            end
          | Some (op, tail) =>
-           (* the rest of the word is read as the shift "immediate" and the whole word disappears *)
-           if orb (all_digits tail) (is_ident tail) then ShGot op None rest else ShUnm
+           (* (only as the parser was found) the rest of the word is read as the shift "immediate" and the
+              whole word disappears: `lsl3` = `lsl 3`, `lsl_loop` = lsl by the identifier `_loop` *)
+           if all_digits tail then ShGot op (Some (dec_val tail, tail)) rest
+           else if is_ident tail then ShGotId op rest else ShUnm
          end
   | _ => ShNone
   end.
@@ -262,6 +282,7 @@ Definition p_reg_ext (r : reg) (k : rkind) (ts : list tok) : option (reg * list 
       if orb (String.eqb lm "z") (String.eqb lm "m")
       then Some (mkreg (r_prefix r) (r_name r) None None None (Some lm), rest)
       else if head_is (fun c => orb (ceq (low c) "z") (ceq (low c) "m")) m then None else Some (r, ts)
+    | None, TP "/" :: TWI _ :: _ => None     (* `p0/mi `: the implementation glues /m and reads `i` on its own *)
     | _, _ => Some (r, ts)
     end
   | _ => Some (r, ts)
@@ -343,7 +364,7 @@ Definition p_mem_close (off : moff) (bp bn : string) (ix : option mindex) (scale
   | TP "]" :: rest => MemGot (OMem off bp bn ix scale false None) rest
   | _ => MemUnm
   end.
-Definition p_mem (ts : list tok) : memres :=
+Definition p_mem (fx : fixes) (ts : list tok) : memres :=
   match ts with
   | TW b :: ts1 =>
     match classify b with
@@ -353,7 +374,7 @@ Definition p_mem (ts : list tok) : memres :=
       | TP "/" :: _ => MemUnm
       | _ =>
       if guard_piece kb rb ts1 then MemUnm else
-      match p_shift ts1 with
+      match p_shift fx ts1 with
       | ShNone =>
         let bp := mem_prefix rb kb in
         let bn := mem_base_name rb kb b in
@@ -370,7 +391,7 @@ Definition p_mem (ts : list tok) : memres :=
             if guard_piece ki ri ts3 then MemUnm else
             let ip := mem_prefix ri ki in
             let iname := mem_base_name ri ki w in
-            match p_shift ts3 with
+            match p_shift fx ts3 with
             | ShUnm => MemUnm
             | ShNone =>
               (* optional  , Word(alphas) immediate   -- parsed and ignored by the implementation *)
@@ -385,6 +406,7 @@ Definition p_mem (ts : list tok) : memres :=
                 else MemUnm
               | _ => p_mem_close MOffNone bp bn (Some (mkmindex ip iname None None)) 1 ts3
               end
+            | ShGotId _ _ => MemUnm
             | ShGot op None ts4 =>
               match ts4 with
               | TP "]" :: _ => p_mem_close MOffNone bp bn (Some (mkmindex ip iname (Some op) None)) 1 ts4
@@ -392,7 +414,7 @@ Definition p_mem (ts : list tok) : memres :=
               end
             | ShGot op (Some (z, raw)) ts4 =>
               if orb (head_is (ceq "-") raw) (prefix_of "0x" raw) then MemUnm else
-              let scale := if mem_str op valid_shift_ops then Z.pow 2 z else 1%Z in
+              let scale := if mem_str op (valid_shift_ops fx) then Z.pow 2 z else 1%Z in
               match ts4 with
               | TP "]" :: _ => p_mem_close MOffNone bp bn (Some (mkmindex ip iname (Some op) (Some raw))) scale ts4
               | _ => MemUnm
@@ -420,9 +442,9 @@ Definition p_mem (ts : list tok) : memres :=
   end.
 
 (* after an immediate in operand position: `, shift_op ...` would make it an arith_immediate (not modelled) *)
-Definition arith_follows (ts : list tok) : bool :=
+Definition arith_follows (fx : fixes) (ts : list tok) : bool :=
   match ts with
-  | TP "," :: TW w :: _ => orb (match shift_split w with Some _ => true | None => false end) (String.eqb (lower w) "mul")
+  | TP "," :: TW w :: _ => orb (match shift_split fx w with Some _ => true | None => false end) (String.eqb (lower w) "mul")
   | _ => false
   end.
 Definition float_piece_follows (ts : list tok) : bool :=
@@ -434,7 +456,7 @@ Definition float_piece_follows (ts : list tok) : bool :=
 Definition prefetch_word (w : string) : bool :=
   let lw := lower w in orb (prefix_of "pld" lw) (prefix_of "pst" lw).
 
-Definition p_operand (first : bool) (ts : list tok) : opres :=
+Definition p_operand (fx : fixes) (first : bool) (ts : list tok) : opres :=
   match ts with
   | TW w :: rest =>
     match classify w with
@@ -443,17 +465,18 @@ Definition p_operand (first : bool) (ts : list tok) : opres :=
       match p_reg_ext r k rest with
       | None => OpUnm
       | Some (r', rest') =>
-        match p_shift rest' with
+        match p_shift fx rest' with
         | ShUnm => OpUnm
         | ShNone => OpGot [OReg r'] rest'
         | ShGot _ _ rest'' => OpGot [OReg r'] rest''
+        | ShGotId _ rest'' => OpGot [OReg r'] rest''
         end
       end
-    | CNum z _ => if arith_follows rest then OpUnm else OpGot [OImmInt z] rest
-    | CFlt f m e => if orb (arith_follows rest) (float_piece_follows rest) then OpUnm else OpGot [OImmFlt f m e] rest
-    | CCond cc => if arith_follows rest then OpUnm else if first then OpGot [OIdent w] rest else OpGot [OCond cc] rest
+    | CNum z _ => if arith_follows fx rest then OpUnm else OpGot [OImmInt z] rest
+    | CFlt f m e => if orb (arith_follows fx rest) (float_piece_follows rest) then OpUnm else OpGot [OImmFlt f m e] rest
+    | CCond cc => if arith_follows fx rest then OpUnm else if first then OpGot [OIdent w] rest else OpGot [OCond cc] rest
     | CIdent =>
-      if arith_follows rest then OpUnm
+      if arith_follows fx rest then OpUnm
       else if andb first (prefetch_word w) then OpUnm
       else if andb (Nat.eqb (String.length w) 1) (match rest with TW d :: _ => head_is is_digit d | _ => false end) then OpUnm
       else OpGot [OIdent w] rest
@@ -461,24 +484,25 @@ Definition p_operand (first : bool) (ts : list tok) : opres :=
     end
   | TP "#" :: TW w :: rest =>
     match classify w with
-    | CNum z _ => if arith_follows rest then OpUnm else OpGot [OImmInt z] rest
-    | CFlt f m e => if orb (arith_follows rest) (float_piece_follows rest) then OpUnm else OpGot [OImmFlt f m e] rest
+    | CNum z _ => if arith_follows fx rest then OpUnm else OpGot [OImmInt z] rest
+    | CFlt f m e => if orb (arith_follows fx rest) (float_piece_follows rest) then OpUnm else OpGot [OImmFlt f m e] rest
     | CBad => OpUnm
-    | _ => if arith_follows rest then OpUnm else OpGot [OIdent w] rest
+    | _ => if arith_follows fx rest then OpUnm else OpGot [OIdent w] rest
     end
-  | TWI w :: rest => if arith_follows rest then OpUnm else OpGot [OIdent w] rest
-  | TP "#" :: TWI w :: rest => if arith_follows rest then OpUnm else OpGot [OIdent w] rest
+  | TWI w :: rest => if arith_follows fx rest then OpUnm else OpGot [OIdent w] rest
+  | TP "#" :: TWI w :: rest => if arith_follows fx rest then OpUnm else OpGot [OIdent w] rest
   | TP "#" :: _ => OpUnm
   | TP "[" :: rest =>
-    match p_mem rest with MemUnm => OpUnm | MemGot o rest' => OpGot [o] rest' end
+    match p_mem fx rest with MemUnm => OpUnm | MemGot o rest' => OpGot [o] rest' end
   | TP "{" :: rest =>
     match p_reglist rest with
     | None => OpUnm
     | Some (rs, rest') =>
-      match p_shift rest' with
+      match p_shift fx rest' with
       | ShUnm => OpUnm
       | ShNone => OpGot (map OReg rs) rest'
       | ShGot _ _ rest'' => OpGot (map OReg rs) rest''
+      | ShGotId _ rest'' => OpGot (map OReg rs) rest''
       end
     end
   | TP "-" :: _ => OpUnm
@@ -488,19 +512,19 @@ Definition p_operand (first : bool) (ts : list tok) : opres :=
 
 (* the five optional operand slots with optional separating commas *)
 Definition skip_comma (ts : list tok) : list tok := match ts with TP "," :: r => r | _ => ts end.
-Fixpoint p_slots (n : nat) (first : bool) (ts : list tok) (acc : list operand) : option (list operand * list tok) :=
+Fixpoint p_slots (fx : fixes) (n : nat) (first : bool) (ts : list tok) (acc : list operand) : option (list operand * list tok) :=
   match n with
   | O => Some (acc, ts)
   | S n' =>
-    match p_operand first ts with
+    match p_operand fx first ts with
     | OpUnm => None
     | OpAbsent => match n' with
                   | O => Some (acc, ts)
-                  | _ => p_slots n' false (skip_comma ts) acc
+                  | _ => p_slots fx n' false (skip_comma ts) acc
                   end
     | OpGot ops rest => match n' with
                         | O => Some ((acc ++ ops)%list, rest)
-                        | _ => p_slots n' false (skip_comma rest) ((acc ++ ops)%list)
+                        | _ => p_slots fx n' false (skip_comma rest) ((acc ++ ops)%list)
                         end
     end
   end.
@@ -517,8 +541,8 @@ Definition comment_text (raw : string) : string := String.concat " " (words_go r
 Definition mnemonic_ok (w : string) : bool :=
   andb (nonempty w) (sall (fun c => orb (is_alpha c) (orb (is_digit c) (ceq c "."))) w).
 
-Definition parse_instr (mn : string) (ts : list tok) : result :=
-  match p_slots 5 true ts [] with
+Definition parse_instr (fx : fixes) (mn : string) (ts : list tok) : result :=
+  match p_slots fx 5 true ts [] with
   | None => Unm
   | Some (ops, rest) =>
     match rest with
@@ -548,7 +572,8 @@ Fixpoint dir_params (ts : list tok) : bool :=
   end.
 
 (* `.name alpha-word // text, more`: the implementation's directive_option swallows the comment up to the
-   comma and what follows the comma is then read as further parameters -- not modelled *)
+   comma and what follows the comma is then read as further parameters -- not modelled.  With the repair
+   fx_dir the parameter stops in front of `//` and the line is a directive whatever the comment contains. *)
 Fixpoint has_comma (s : string) : bool :=
   match s with EmptyString => false | String c r => orb (ceq c ",") (has_comma r) end.
 Definition swallowing_param (w : string) : bool := head_is (fun c => orb (is_alpha c) (ceq c ".")) w.
@@ -560,7 +585,7 @@ Fixpoint dir_comment_clash (ts : list tok) : bool :=
   | [] => false
   end.
 
-Definition parse_toks (ts : list tok) : result :=
+Definition parse_toks (fx : fixes) (ts : list tok) : result :=
   match ts with
   | [TC raw] => Parsed (mkpline None [] None None (Some (comment_text raw)))
   | TW w :: TP ":" :: rest =>
@@ -579,16 +604,21 @@ Definition parse_toks (ts : list tok) : result :=
     end
   | TW w :: rest =>
     if head_is (ceq ".") w then
-      (if andb (dir_name_ok w) (andb (dir_params rest) (negb (dir_comment_clash rest))) then Parsed (mkpline None [] None (Some (drop 1 w)) None) else Unm)
-    else if mnemonic_ok w then parse_instr w rest
+      (if andb (dir_name_ok w) (andb (dir_params rest) (orb (fx_dir fx) (negb (dir_comment_clash rest)))) then Parsed (mkpline None [] None (Some (drop 1 w)) None) else Unm)
+    else if mnemonic_ok w then parse_instr fx w rest
     else Unm
   | _ => Unm
   end.
 
-Definition parse_line (line : string) : result :=
+(* With the repair fx_cond white space after a condition-code word no longer matters: the marked token TWI
+   (LexA64.v) is read like the plain word. *)
+Definition unmark1 (t : tok) : tok := match t with TWI w => TW w | _ => t end.
+Definition unmark (fx : fixes) (ts : list tok) : list tok := if fx_cond fx then map unmark1 ts else ts.
+
+Definition parse_line (fx : fixes) (line : string) : result :=
   match lex line with
   | None => Unm
-  | Some ts => parse_toks ts
+  | Some ts => parse_toks fx (unmark fx ts)
   end.
 
 (* ------------------------------------------------------------------ canonical serialisation *)
